@@ -134,7 +134,9 @@ def analyse(fn):
                 _, key, rv = sinkids[n.id]
                 ok = all(("eq", key) in f for f in S)
                 how = "generation compared equal on every path" if ok else "no sched_id equality established on some path"
-                canres = all(any(x[0] == "canres" for x in f) for f in S)
+                # the fibers janet_fiber_can_resume was established for on EVERY path (texts); truthy iff some exists
+                cs = [set(x[1] for x in f if x[0] == "canres") for f in S]
+                canres = sorted(set.intersection(*cs)) if cs else []
                 res.append((n, key, rv, ok, how, canres, tracked[rv]))
             S = T(S, n)
     return res
